@@ -46,6 +46,7 @@ type Contract struct {
 	Emits        string // name of callback parameter for the emit idiom
 	Inline       bool
 	LocalEffects bool
+	AssumeCall   map[string][]Clause // callee name -> restriction assumed on its results at call sites in this function
 	Modifies     []string // ghost relations the function may change
 	ParamNames   []string // receiver and argument names of an interface method contract
 	NoOverflow   bool // do not generate overflow obligations (documented)
@@ -279,6 +280,24 @@ func (cs *ContractSet) parseFile(path, pkgDir string) error {
 				cs.Ghosts = map[string][]string{}
 			}
 			cs.Ghosts[strings.TrimSpace(rest[:i])] = sorts
+		case "assumecall":
+			// assumecall <callee> <expr over r0..rn>: restriction of the verified domain, assumed (not proved) after
+			// every call of <callee> in this function; listed among the assumptions of the evidence
+			if cur == nil {
+				return fail("assumecall outside a contract")
+			}
+			fl := strings.SplitN(rest, " ", 2)
+			if len(fl) != 2 {
+				return fail("assumecall: want 'assumecall <callee> <expr>'")
+			}
+			e, err := ParseExpr(fl[1])
+			if err != nil {
+				return fail("%v", err)
+			}
+			if cur.AssumeCall == nil {
+				cur.AssumeCall = map[string][]Clause{}
+			}
+			cur.AssumeCall[fl[0]] = append(cur.AssumeCall[fl[0]], Clause{Expr: e, Text: fl[1], File: path, Line: rl.line})
 		case "localeffects":
 			// every heap write of the function targets objects it allocates itself (checked by the F obligations)
 			if cur == nil {
